@@ -453,7 +453,7 @@ func convToBasicNumber(source interface{}, target reflect.Type) (interface{}, er
 		// decimal's own Float64 is not correctly rounded: truncate in decimal for integer
 		// targets and convert the decimal text for float targets
 		if v.IsFinite() {
-			if iv, exact := toIntegral(v, decimal.ToZero).Int64(); exact {
+			if iv, exact := int64Of(toIntegral(v, decimal.ToZero)); exact {
 				switch target.Kind() {
 				case reflect.Int8:
 					return int8(iv), nil
@@ -636,7 +636,7 @@ func (r *Runner) resolveExclamationExclamationUnaryExpression(v interface{}) (in
 func (r *Runner) resolveTildeUnaryExpression(v interface{}) (interface{}, error) {
 	switch n := v.(type) {
 	case *decimal.Big:
-		iv, _ := n.Int64()
+		iv, _ := int64Of(n)
 		return newDecimalBig().SetMantScale(^iv, 0), nil
 	default:
 		return nil, fmt.Errorf("unary expressin '~' not support type %T", v)
@@ -833,21 +833,21 @@ func decimalPlacesApart(x, y *decimal.Big) int {
 }
 
 func (r *Runner) resolveAmpersandBinaryExpression(v1, v2 interface{}) (interface{}, error) {
-	i1, _ := convToNumber(v1).Int64()
-	i2, _ := convToNumber(v2).Int64()
+	i1, _ := int64Of(convToNumber(v1))
+	i2, _ := int64Of(convToNumber(v2))
 	// (not through float64: beyond 2^53 it cannot hold every int64)
 	return newDecimalBig().SetMantScale(i1&i2, 0), nil
 }
 
 func (r *Runner) resolveBarBinaryExpression(v1, v2 interface{}) (interface{}, error) {
-	i1, _ := convToNumber(v1).Int64()
-	i2, _ := convToNumber(v2).Int64()
+	i1, _ := int64Of(convToNumber(v1))
+	i2, _ := int64Of(convToNumber(v2))
 	return newDecimalBig().SetMantScale(i1|i2, 0), nil
 }
 
 func (r *Runner) resolveCaretBinaryExpression(v1, v2 interface{}) (interface{}, error) {
-	i1, _ := convToNumber(v1).Int64()
-	i2, _ := convToNumber(v2).Int64()
+	i1, _ := int64Of(convToNumber(v1))
+	i2, _ := int64Of(convToNumber(v2))
 	return newDecimalBig().SetMantScale(i1^i2, 0), nil
 }
 
@@ -1237,6 +1237,22 @@ func toIntegral(v *decimal.Big, mode decimal.RoundingMode) *decimal.Big {
 	}
 	result.Context.RoundingMode = mode
 	return result.RoundToInt()
+}
+
+// int64Of is v.Int64() for every magnitude. For a coefficient beyond 64 bits the decimal library
+// first multiplies (or divides) it out by 10^|exponent|, which for 12345678901234567890123e99999999
+// or 92233720368547758080e-999999999 takes unbounded time and memory; more than 64 places away
+// from the decimal point the answer follows from the position of the digits alone.
+func int64Of(v *decimal.Big) (int64, bool) {
+	if v.IsFinite() && v.Sign() != 0 {
+		if v.Scale() < -64 {
+			return 0, false // a non-zero multiple of 10^65: outside int64, and its low 64 bits are zero
+		}
+		if v.Scale()-v.Precision() > 64 {
+			return 0, true // |v| < 1
+		}
+	}
+	return v.Int64()
 }
 
 func funAbs(v *decimal.Big) (*decimal.Big, error) {
